@@ -1266,6 +1266,303 @@ fn g_huge_mib(ctx: &mut Ctx) {
     }
 }
 
+
+// ================================================================================================
+// GAP FAMILIES (`gap_*`): entry points of the anchor files that no other family reaches — alternative constructors
+// (with_cache_config / with_config / set_thresholds / default codecs), global convenience wrappers, parse_hex_byte,
+// dictionary hash lookup, the bidirectional UTF-8 iterator, Unicode analysis / utils, pack_bits, and the
+// feature -> variant selection tables of system::cpu_features on synthetic feature sets.
+// ================================================================================================
+fn g_gap_memops(ctx: &mut Ctx) {
+    use zipora::memory::simd_ops::*;
+    use zipora::memory::{CacheLayoutConfig, PrefetchHint};
+    for idx in 0..ctx.n(160, 3000) as u64 {
+        ctx.case("memops/cachecfg", "gap_cfg", idx, |c| {
+            let mut cfg = match idx % 6 { 0 => CacheLayoutConfig::new(), 1 => CacheLayoutConfig::sequential(), 2 => CacheLayoutConfig::random(), 3 => CacheLayoutConfig::write_heavy(), 4 => CacheLayoutConfig::read_heavy(), _ => CacheLayoutConfig::default() };
+            if c.rng.bool() { cfg.enable_prefetch = c.rng.bool(); }
+            // 0 is excluded for both sizes (a zero step / modulus is a degenerate configuration, not a tier question)
+            if c.rng.chance(2, 3) { cfg.prefetch_distance = *c.rng.pick(&[1usize, 7, 16, 63, 64, 65, 256, 4096, 1 << 20]); }
+            if c.rng.chance(1, 2) { cfg.cache_line_size = *c.rng.pick(&[1usize, 8, 16, 32, 48, 64, 128, 4096]); }
+            let pd = cfg.prefetch_distance;
+            let len = match c.rng.below(5) { 0 => *c.rng.pick(BLENS), 1 => c.rng.usize_below(300), 2 => *c.rng.pick(BIGLENS), 3 => (pd.min(9000) + c.rng.usize_below(3)).saturating_sub(1), _ => cfg.cache_line_size.min(5000) * (1 + c.rng.usize_below(3)) + c.rng.usize_below(2) };
+            let al = |r: &mut Rng| if r.bool() { 16 * r.usize_below(4) } else { r.usize_below(64) };
+            let (a1, a2) = (al(&mut c.rng), al(&mut c.rng)); let (p1, p2) = (Place::Align(a1), Place::Align(a2));
+            let kind = byte_kind(&mut c.rng); let d = gen::bytes_kind(&mut c.rng, kind, len);
+            c.input_str("cfg", &format!("base={} prefetch={} distance={} line={} len={len} {p1:?} {p2:?}", idx % 6, cfg.enable_prefetch, cfg.prefetch_distance, cfg.cache_line_size)); c.input("data", &d); c.set_nontrivial(len >= 1);
+            let cls = cfg.cache_line_size;
+            // operands aligned to the configured line size but not to 64 bytes, long enough for the "aligned" branch
+            let line_lt64 = len >= cls && len > 0 && a1 % cls == 0 && a2 % cls == 0 && (a1 % 64 != 0 || a2 % 64 != 0);
+            if line_lt64 { c.tag("cacheline_aligned_not_64_aligned"); }
+            let ops = SimdMemOps::with_cache_config(cfg.clone());
+            let g = ops.cache_config(); ensure!(g.enable_prefetch == cfg.enable_prefetch && g.prefetch_distance == cfg.prefetch_distance && g.cache_line_size == cfg.cache_line_size && g.access_pattern == cfg.access_pattern, "config_ignored", "with_cache_config: cache_config() differs from the configuration passed in");
+            ensure!(ops.tier() == SimdMemOps::new().tier(), "tier_depends_on_cache_config", "tier {:?} vs {:?}", ops.tier(), SimdMemOps::new().tier());
+            ensure!(std::ptr::eq(ops.cpu_features(), zipora::system::get_cpu_features()), "tier_unsupported", "SimdMemOps::cpu_features() is not the process-wide feature set");
+            chk_copy(c, "SimdMemOps(cfg)::copy_nonoverlapping", &|s, d| ops.copy_nonoverlapping(s, d), &d, p1, p2, true)?;
+            chk_copy(c, "SimdMemOps(cfg)::copy_cache_optimized", &|s, d| ops.copy_cache_optimized(s, d), &d, p1, p2, !line_lt64)?;
+            if line_lt64 { let src = place(p1, &d); let mut dst = place(p2, &vec![0u8; len]); let r = np("copy_cache_optimized", || ops.copy_cache_optimized(src.s(), dst.m()))?;
+                if let Err(e) = r { return Err(bad("cacheopt_copy_refused_line_lt64", format!("copy_cache_optimized(len={len}, src align {a1}, dst align {a2}) with cache_line_size={cls}: Err({e})"))); } c.ev(1); }
+            chk_copy(c, "SimdMemOps(cfg)::copy_cache_optimized(aligned)", &|s, d| ops.copy_cache_optimized(s, d), &d, Place::Align(0), Place::Align(0), true)?;
+            chk_copy(c, "SimdMemOps(cfg)::copy_aligned", &|s, d| ops.copy_aligned(s, d), &d, Place::Align(0), Place::Align(0), true)?;
+            chk_cmp_sign(c, "SimdMemOps(cfg)::compare", &|a, b| ops.compare(a, b), &d, p1, p2, false)?;
+            chk_cmp_sign(c, "SimdMemOps(cfg)::compare_cache_optimized", &|a, b| ops.compare_cache_optimized(a, b), &d, p1, p2, false)?;
+            chk_find_byte(c, "SimdMemOps(cfg)::find_byte", &|h, n| ops.find_byte(h, n), &d, p1)?;
+            let v = c.rng.next() as u8; chk_fill(c, "SimdMemOps(cfg)::fill", &|s, x| ops.fill(s, x), len, p2, v)?;
+            // prefetch hints are advisory: harmless on any reference, and they must not change the data
+            let m = place(p1, &d);
+            np("prefetch", || { ops.prefetch_range(m.s()); for h in [PrefetchHint::T0, PrefetchHint::T1, PrefetchHint::T2, PrefetchHint::NTA] { ops.prefetch(m.s().as_ptr(), h); fast_prefetch(m.s(), h); fast_prefetch(&len, h); fast_prefetch(&d, h); } })?;
+            ensure!(m.s() == &d[..] && m.intact(), "copy_src_modified", "prefetch changed the data"); c.ev(1);
+            Ok(()) });
+    }
+}
+
+fn g_gap_strings(ctx: &mut Ctx) {
+    use zipora::string::bmi2 as B;
+    // ---- hash_map::simd_string_ops global instance == a fresh instance, i.e. the methods the other families check
+    for idx in 0..ctx.n(210, 2000) as u64 {
+        ctx.case("hmstr/global", "gap_global", idx, |c| { let G = zipora::hash_map::get_global_simd_ops(); // the free functions fast_string_compare / fast_string_hash / extract_string_prefix live in a private module; this is what they forward to
+            let n = if idx < 201 { idx as usize } else { BIGLENS[(idx as usize) % BIGLENS.len()] }; let mb = *c.rng.pick(&[0u64, 0, 10, 60]); let s = valid_string(&mut c.rng, n, mb); c.input_str("s", &s); c.set_nontrivial(n >= 1);
+            let ops = zipora::hash_map::SimdStringOps::new();
+            for base in [0u64, c.rng.next()] { let (g, w) = (np("fast_string_hash(global)", || G.fast_string_hash(&s, base))?, ops.fast_string_hash(&s, base)); ensure!(g == w, "global_wrapper", "fast_string_hash(len {n}, base {base:#x}) = {g:#x}, SimdStringOps::fast_string_hash gives {w:#x}"); c.ev(1); }
+            let g = np("extract_string_prefix", || G.extract_prefix_simd(&s))?; ensure!(g == prefix_def(s.as_bytes()), "prefix", "extract_string_prefix(len {n}) = {g:#x} want {:#x}", prefix_def(s.as_bytes())); c.ev(1);
+            let mut others = vec![s.clone(), format!("{s}x")];
+            let ascii_pos: Vec<usize> = s.bytes().enumerate().filter(|(_, b)| b.is_ascii()).map(|(i, _)| i).collect();
+            for _ in 0..6 { if ascii_pos.is_empty() { break; } let p = match c.rng.below(3) { 0 => ascii_pos[0], 1 => *ascii_pos.last().unwrap(), _ => *c.rng.pick(&ascii_pos) }; let mut b = s.clone().into_bytes(); b[p] = if b[p] == b'z' { b'y' } else { b'z' }; others.push(String::from_utf8(b).unwrap()); }
+            for o in &others { let want = *o == s; for cp in [0u64, prefix_def(o.as_bytes())] { let g = np("fast_string_compare(global)", || G.fast_string_compare(&s, o, cp))?;
+                if g != want { return Err(bad("string_equality", format!("hash_map::fast_string_compare(len {}, len {}, cached_prefix={cp:#x}) = {g}, want {want} (first difference at byte {})", s.len(), o.len(), first_diff(s.as_bytes(), o.as_bytes())))); }
+                ensure!(g == ops.fast_string_compare(&s, o, cp), "global_wrapper", "fast_string_compare differs from the instance method"); c.ev(2); } }
+            Ok(()) });
+    }
+    // ---- parse_hex_byte: every pair of bytes, against the digit definition and against hex_decode
+    for idx in 0..ctx.n(2, 8) as u64 {
+        ctx.case("hex", "gap_parse_byte", idx, |c| { use zipora::string as H; c.input_str("pairs", "all 65536 (high, low) byte pairs"); c.hash_more(&idx.to_le_bytes()); c.nontrivial();
+            let nib = |b: u8| -> Option<u8> { match b { b'0'..=b'9' => Some(b - b'0'), b'a'..=b'f' => Some(b - b'a' + 10), b'A'..=b'F' => Some(b - b'A' + 10), _ => None } };
+            for hi in 0..=255u8 { for lo in 0..=255u8 { let want = match (nib(hi), nib(lo)) { (Some(h), Some(l)) => Some(h << 4 | l), _ => None }; let g = H::parse_hex_byte(hi, lo); if g != want { return Err(bad("hex_parse_byte", format!("parse_hex_byte({hi:#04x}, {lo:#04x}) = {g:?} want {want:?}"))); } } } c.ev(65536);
+            // consistent with the slice decoder on random digit pairs (valid and invalid)
+            for _ in 0..400 { let pr = [*c.rng.pick(b"0123456789abcdefABCDEFgG/:@`x \0\xff"), *c.rng.pick(b"0123456789abcdefABCDEFgG/:@`x \0\xff")]; let a = H::parse_hex_byte(pr[0], pr[1]); let b = H::hex_decode_bytes(&pr).ok().map(|v| v[0]); ensure!(a == b, "hex_parse_byte", "parse_hex_byte({:?}) = {a:?} but hex_decode_bytes gives {b:?}", pr); c.ev(1); }
+            Ok(()) });
+    }
+    // ---- StringDictionary::lookup_by_hash: the documented pre-computed hash is the byte-wise rotate/add hash
+    for idx in 0..ctx.n(60, 1000) as u64 {
+        ctx.case("bmi2/dictionary", "gap_lookup_by_hash", idx, |c| {
+            let k = 1 + c.rng.usize_below(12); let mut words: Vec<String> = (0..k).map(|_| { let n = c.rng.usize_below(20); let mb = *c.rng.pick(&[0u64, 0, 50]); valid_string(&mut c.rng, n, mb) }).collect();
+            if k >= 2 && c.rng.bool() { let w = words[0].clone(); words.push(w); } // duplicate entry
+            c.input_str("words", &words.join("\u{1}")); c.nontrivial();
+            let h = |s: &str| s.bytes().fold(0u64, |a, b| a.rotate_left(5).wrapping_add(b as u64));
+            let dict = np("StringDictionary::new", || B::StringDictionary::new(words.clone()))?; let pr = B::Bmi2StringProcessor::new();
+            for (i, w) in words.iter().enumerate() { let e = np("lookup_by_hash", || dict.lookup_by_hash(h(w)).cloned())?;
+                let e = match e { Some(e) => e, None => return Err(bad("dictionary_lookup_hash", format!("lookup_by_hash(hash of entry #{i} {w:?}) = None"))) };
+                ensure!(e.hash == h(w) && h(&e.text) == h(w) && words.get(e.index) == Some(&e.text), "dictionary_lookup_hash", "lookup_by_hash(hash of {w:?}) returned entry #{} {:?} with hash {:#x}", e.index, e.text, e.hash);
+                if w.len() < 8 { ensure!(pr.hash_string_bmi2(w, 0) == e.hash, "hash_short_input", "hash_string_bmi2({w:?}, 0) differs from the dictionary's pre-computed hash"); } c.ev(1); }
+            for _ in 0..8 { let x = c.rng.next(); if words.iter().all(|w| h(w) != x) { ensure!(dict.lookup_by_hash(x).is_none(), "dictionary_lookup_hash", "lookup_by_hash({x:#x}) found an entry for a hash no word has"); c.ev(1); } }
+            Ok(()) });
+    }
+}
+
+fn g_gap_unicode(ctx: &mut Ctx) {
+    use zipora::string::{UnicodeProcessor, Utf8ToUtf32Iterator};
+    use zipora::string::utils::unicode_utils as UU;
+    for idx in 0..ctx.n(300, 6000) as u64 {
+        // ---- bidirectional UTF-8 -> UTF-32 iterator against str::chars / char_indices
+        ctx.case("unicode/iter", "gap_valid", idx, |c| { let n = (idx % 150) as usize; let mb = *c.rng.pick(&[0u64, 30, 100]); let s = valid_string(&mut c.rng, n, mb); let al = c.rng.usize_below(64); c.input_str("s", &s); c.set_nontrivial(n >= 1);
+            let m = ABuf::new(s.as_bytes(), al); let chars: Vec<char> = s.chars().collect(); let bounds: Vec<usize> = s.char_indices().map(|(i, _)| i).chain(std::iter::once(s.len())).collect();
+            let mut it = match np("Utf8ToUtf32Iterator::new", || Utf8ToUtf32Iterator::new(m.s()))? { Ok(it) => it, Err(e) => return Err(bad("utf8_decode_rejects_valid", format!("Utf8ToUtf32Iterator::new: valid UTF-8 of len {n} rejected: {e}"))) };
+            ensure!(it.byte_position() == 0 && it.current().is_none(), "utf8_iter", "fresh iterator: position {} current {:?}", it.byte_position(), it.current());
+            for (k, &ch) in chars.iter().enumerate() { let g = np("next_char", || it.next_char())?; if g != Some(ch) || it.current() != Some(ch) || it.byte_position() != bounds[k + 1] { return Err(bad("utf8_iter", format!("forward step {k}: next_char = {g:?} current = {:?} position = {}; want {ch:?} at {}", it.current(), it.byte_position(), bounds[k + 1]))); } c.ev(1); }
+            ensure!(it.next_char().is_none() && it.current().is_none() && it.byte_position() == s.len(), "utf8_iter", "at the end: next_char must be None and the position stay at {}", s.len());
+            for k in (0..chars.len()).rev() { let g = np("prev_char", || it.prev_char())?; if g != Some(chars[k]) || it.current() != Some(chars[k]) || it.byte_position() != bounds[k] { return Err(bad("utf8_iter", format!("backward step to char {k}: prev_char = {g:?} position = {}; want {:?} at {}", it.byte_position(), chars[k], bounds[k]))); } c.ev(1); }
+            ensure!(it.prev_char().is_none() && it.byte_position() == 0, "utf8_iter", "at the start: prev_char must be None");
+            // random walk with resets against an index model
+            let mut i = 0usize;
+            for step in 0..(3 * chars.len() + 8) { match c.rng.below(9) {
+                0..=3 => { let w = if i < chars.len() { i += 1; Some(chars[i - 1]) } else { None }; let g = it.next_char(); ensure!(g == w && it.current() == w, "utf8_iter", "walk step {step}: next_char = {g:?} want {w:?}"); }
+                4..=7 => { let w = if i > 0 { i -= 1; Some(chars[i]) } else { None }; let g = it.prev_char(); ensure!(g == w && it.current() == w, "utf8_iter", "walk step {step}: prev_char = {g:?} want {w:?}"); }
+                _ => { it.reset(); i = 0; ensure!(it.current().is_none(), "utf8_iter", "current() after reset = {:?}", it.current()); } }
+                ensure!(it.byte_position() == bounds[i], "utf8_iter", "walk step {step}: byte_position = {} want {}", it.byte_position(), bounds[i]); c.ev(1); }
+            ensure!(m.intact(), "copy_src_modified", "iterator wrote to its input"); Ok(()) });
+        ctx.case("unicode/iter", "gap_invalid", idx, |c| { let (name, seq) = BAD_SEQS[(idx as usize) % BAD_SEQS.len()]; let pre = c.rng.usize_below(70); let mb = *c.rng.pick(&[0u64, 50]); let mut v = valid_exact(&mut c.rng, pre, mb); v.extend_from_slice(seq); let suf = c.rng.usize_below(40); v.extend(valid_exact(&mut c.rng, suf, mb));
+            c.input("bytes", &v); c.input_str("defect", name); c.nontrivial(); let want = std::str::from_utf8(&v).is_ok();
+            let g = np("Utf8ToUtf32Iterator::new", || Utf8ToUtf32Iterator::new(&v).is_ok())?; ensure!(g == want, "utf8_verdict", "Utf8ToUtf32Iterator::new(len {}, {name} at {pre}): accepted = {g}, std says valid = {want}", v.len()); c.ev(1); Ok(()) });
+        // ---- analysis counters and the std-backed utilities
+        ctx.case("unicode/analyze", "gap_valid", idx, |c| { let n = (idx % 150) as usize; let mb = *c.rng.pick(&[0u64, 0, 30, 100]); let mut s = valid_string(&mut c.rng, n, mb); if c.rng.chance(1, 4) { for ch in ["\t", "\u{7}", "\u{4E2D}", "\u{85}", "A\u{30A}", "\u{130}", "\u{DF}"] { if c.rng.bool() { let b: Vec<usize> = s.char_indices().map(|(i, _)| i).chain(std::iter::once(s.len())).collect(); let p = *c.rng.pick(&b); s.insert_str(p, ch); } } }
+            c.input_str("s", &s); c.set_nontrivial(!s.is_empty());
+            let a = np("UnicodeProcessor::analyze", || UnicodeProcessor::new().analyze(&s))?; let nch = s.chars().count(); let nas = s.chars().filter(|x| x.is_ascii()).count();
+            ensure!(a.char_count == nch && a.byte_count == s.len() && a.ascii_count == nas, "utf8_count", "analyze(len {}): chars {} bytes {} ascii {}; std says {nch} / {} / {nas}", s.len(), a.char_count, a.byte_count, a.ascii_count, s.len());
+            ensure!(a.basic_latin == nas && a.basic_latin + a.latin_supplement + a.extended_latin + a.other_unicode == nch, "utf8_count", "analyze: block counts {}+{}+{}+{} do not add up to {nch} characters", a.basic_latin, a.latin_supplement, a.extended_latin, a.other_unicode);
+            ensure!(a.is_ascii() == s.is_ascii(), "utf8_count", "UnicodeAnalysis::is_ascii() = {} but str::is_ascii() = {}", a.is_ascii(), s.is_ascii());
+            let avg = a.avg_bytes_per_char(); let wavg = if nch == 0 { 0.0 } else { s.len() as f64 / nch as f64 }; ensure!((avg - wavg).abs() < 1e-9, "utf8_count", "avg_bytes_per_char = {avg} want {wavg}");
+            let cs = a.complexity_score(); ensure!(cs >= 0.0 && cs <= 1.0 + 1e-9 && (!s.is_ascii() || cs == 0.0), "utf8_count", "complexity_score = {cs} (documented range 0.0 = ASCII .. 1.0)"); c.ev(5);
+            let g = np("extract_codepoints", || UU::extract_codepoints(&s))?; ensure!(g == s.chars().map(|x| x as u32).collect::<Vec<u32>>(), "utf8_decode_mismatch", "extract_codepoints(len {}): {} code points, std gives {nch}", s.len(), g.len());
+            ensure!(np("to_lowercase_unicode", || UU::to_lowercase_unicode(&s))? == s.to_lowercase() && np("to_uppercase_unicode", || UU::to_uppercase_unicode(&s))? == s.to_uppercase(), "unicode_case", "to_lowercase_unicode / to_uppercase_unicode differ from std for {s:?}"); c.ev(3);
+            // processor: no option = identity; case folding of ASCII is ASCII lower-casing; everything the docs leave open is only noted
+            let p0 = np("UnicodeProcessor::process", || UnicodeProcessor::new().process(&s))?.map_err(|e| bad("unicode_process_err", e.to_string()))?; ensure!(p0 == s, "unicode_process", "process() with no option enabled changed the string");
+            let p1 = UnicodeProcessor::new().with_case_folding(true).process(&s).map_err(|e| bad("unicode_process_err", e.to_string()))?; if s.is_ascii() { ensure!(p1 == s.to_ascii_lowercase(), "unicode_process", "case folding of ASCII text {s:?} gave {p1:?}"); } else if p1 != s.to_lowercase() { c.note("casefold_differs_from_to_lowercase", 1); }
+            let p2 = UnicodeProcessor::new().with_normalization(true).with_case_folding(false).process(&s).map_err(|e| bad("unicode_process_err", e.to_string()))?; if s.is_ascii() { ensure!(p2 == s, "unicode_process", "normalisation changed ASCII text"); } else if p2 != s { c.note("normalization_changed_text", 1); } c.ev(3);
+            // display width / printability: only the unambiguous cases are asserted
+            let ctl = s.chars().any(|x| x.is_control()); let ctl_other = s.chars().any(|x| x.is_control() && !matches!(x, '\t' | '\n' | '\r'));
+            let pr = np("is_printable", || UU::is_printable(&s))?; if !ctl { ensure!(pr, "unicode_printable", "is_printable = false for text without control characters"); } else if ctl_other { ensure!(!pr, "unicode_printable", "is_printable = true for text with a control character other than TAB/LF/CR"); } else { c.note(if pr { "tab_lf_cr_printable" } else { "tab_lf_cr_not_printable" }, 1); }
+            let w = np("display_width", || UU::display_width(&s))?; if s.is_ascii() && !ctl { ensure!(w == s.len(), "unicode_width", "display_width of printable ASCII (len {}) = {w}", s.len()); } else { ensure!(w <= 2 * nch, "unicode_width", "display_width {w} > 2 x {nch} characters"); } c.ev(2);
+            Ok(()) });
+    }
+}
+
+fn g_gap_codec_bits(ctx: &mut Ctx) {
+    use zipora::system::base64 as SB;
+    use zipora::entropy::bit_ops::*;
+    // ---- default-constructed Base64 codecs (SimdBase64Decoder::new, Default impls) == RFC 4648 standard alphabet with padding
+    for idx in 0..ctx.n(210, 2000) as u64 {
+        ctx.case("b64/system", "gap_default", idx, |c| { let n = if idx < 201 { idx as usize } else { BIGLENS[(idx as usize) % BIGLENS.len()] }; let kind = byte_kind(&mut c.rng); let d = gen::bytes_kind(&mut c.rng, kind, n); let al = c.rng.usize_below(64); c.input("data", &d); c.set_nontrivial(n >= 1);
+            let m = ABuf::new(&d, al); let want = b64_def(&d, false, true);
+            let dec = np("SimdBase64Decoder::new", || SB::SimdBase64Decoder::new().decode(&want))?.map_err(|e| bad("b64_decode_err", format!("SimdBase64Decoder::new() rejects the canonical encoding of len {n}: {e}")))?; ensure!(dec == d, "b64_roundtrip", "SimdBase64Decoder::new().decode len={n}");
+            let dec = SB::SimdBase64Decoder::default().decode(&want).map_err(|e| bad("b64_decode_err", e.to_string()))?; ensure!(dec == d, "b64_roundtrip", "SimdBase64Decoder::default().decode len={n}");
+            ensure!(SB::SimdBase64Encoder::default().encode(m.s()) == want && SB::AdaptiveBase64::default().encode(m.s()) == want, "b64_encode", "Default codecs len={n}");
+            let a = SB::AdaptiveBase64::new(); c.note(&format!("impl:{:?}", a.selected_implementation()), 1);
+            if !want.is_empty() { let mut w = want.clone().into_bytes(); let i = c.rng.usize_below(w.len()); w[i] = *c.rng.pick(b"!*-_ \n~"); let s = String::from_utf8(w).unwrap(); ensure!(SB::SimdBase64Decoder::new().decode(&s).is_err(), "b64_accepts_invalid", "SimdBase64Decoder::new() accepted {:?}", &s[..s.len().min(40)]); }
+            c.ev(4); Ok(()) });
+    }
+    // ---- EntropyBitOps::pack_bits (in-range fields) and the accessors of the configured instances
+    for idx in 0..ctx.n(60, 1500) as u64 {
+        ctx.case("bitops/entropy", "gap_pack_bits", idx, |c| { c.hash_more(&idx.to_le_bytes()); c.nontrivial();
+            let sw_cfg = BitOpsConfig { enable_bmi2: false, enable_avx2: false, enable_popcnt: false, software_fallback: true, ..BitOpsConfig::default() };
+            let (hw, sw) = (EntropyBitOps::new(), EntropyBitOps::with_config(sw_cfg.clone()));
+            ensure!(!sw.bit_ops().config().enable_bmi2 && !sw.bit_ops().has_bmi2() && sw.bit_ops().config().software_fallback, "config_ignored", "EntropyBitOps::with_config: bit_ops().config() does not reflect the configuration");
+            let f = zipora::system::get_cpu_features(); ensure!(hw.bit_ops().features().has_bmi2 == f.has_bmi2 && hw.bit_ops().features().has_avx2 == f.has_avx2 && hw.bit_ops().features().has_popcnt == f.has_popcnt, "tier_unsupported", "BitOps::features() differs from get_cpu_features()");
+            for _ in 0..64 {
+                let width = match c.rng.below(4) { 0 => 32, 1 => 1, _ => c.rng.below(33) as u32 }; let offset = c.rng.below((64 - width + 1) as u64) as u32; let value = word(&mut c.rng) as u32; let s0 = if c.rng.bool() { 0 } else { word(&mut c.rng) };
+                let mask = if width == 32 { 0xFFFF_FFFFu64 } else { (1u64 << width) - 1 }; let want = if width == 0 { s0 } else { s0 | ((value as u64 & mask) << (64 - offset - width)) };
+                for (label, e) in [("default", &hw), ("software", &sw)] { let mut st = s0; let r = np("pack_bits", || e.pack_bits(&mut st, value, offset, width))?; if let Err(er) = r { return Err(bad("pack_bits", format!("EntropyBitOps({label})::pack_bits(offset {offset}, width {width}) refused an in-range field: {er}"))); }
+                    ensure!(st == want, "pack_bits", "EntropyBitOps({label})::pack_bits({s0:#x}, {value:#x}, offset {offset}, width {width}) = {st:#x} want {want:#x}"); c.ev(1); }
+                // the instance returned by bit_ops() computes the same functions
+                let x = word(&mut c.rng); ensure!(hw.bit_ops().popcount64(x) == popc_def(x) && sw.bit_ops().popcount64(x) == popc_def(x) && sw.bit_ops().reverse_bits64(x) == rev_def(x, 64), "popcount", "EntropyBitOps::bit_ops() popcount64/reverse_bits64({x:#x})"); c.ev(1);
+            }
+            // parameters the function documents as invalid must come back as Err; offset + width > 64 with offset <= 64 is not documented -> note only
+            let mut st = 0u64; ensure!(hw.pack_bits(&mut st, 1, 0, 33).is_err() && hw.pack_bits(&mut st, 1, 65, 1).is_err() && st == 0, "pack_bits", "width 33 / offset 65 accepted");
+            let (o, w) = (40 + c.rng.below(25) as u32, 1 + c.rng.below(32) as u32); if o + w > 64 { match catch(|| { let mut st = 0u64; hw.pack_bits(&mut st, u32::MAX, o, w).map(|_| st) }) { Err(_) => c.note("pack_bits_field_past_bit64_panics", 1), Ok(Err(_)) => c.note("pack_bits_field_past_bit64_err", 1), Ok(Ok(_)) => c.note("pack_bits_field_past_bit64_ok", 1) } }
+            // dispatcher report reflects its configuration
+            let off = BitOpsConfig { enable_compression_optimizations: false, enable_entropy_acceleration: false, enable_variable_length_decoding: false, ..sw_cfg.clone() };
+            let r = np("optimization_report", || CompressionBmi2Dispatcher::with_config(off).optimization_report())?; ensure!(!r.entropy_acceleration && !r.variable_length_acceleration && !r.compression_optimization, "config_ignored", "optimization_report of a dispatcher with every acceleration disabled: {r:?}"); c.ev(1);
+            Ok(()) });
+    }
+}
+
+fn g_gap_selection(ctx: &mut Ctx) {
+    use zipora::simd::adaptive::{AdaptiveSelectorConfig, SelectionThresholds};
+    use zipora::simd::{AdaptiveSimdSelector, Operation, SimdImpl};
+    use zipora::system::cpu_features as F;
+    const OPS: &[Operation] = &[Operation::Rank, Operation::Select, Operation::Popcount, Operation::Search, Operation::Hash, Operation::StringSearch, Operation::BitManip, Operation::MemZero, Operation::Copy, Operation::Utf8Validation, Operation::Encode, Operation::Decode];
+    for idx in 0..ctx.n(60, 1500) as u64 {
+        // ---- custom selector configuration / thresholds: still a supported implementation, stable, threshold change takes effect
+        ctx.case("adaptive/select", "gap_cfg", idx, |c| { c.hash_more(&idx.to_le_bytes()); c.nontrivial(); let f = zipora::system::get_cpu_features();
+            let supported = |a: SimdImpl| match a { SimdImpl::Avx512 => f.has_avx512f && f.has_avx512bw && f.has_avx512vl, SimdImpl::Avx2 => f.has_avx2, SimdImpl::Bmi2 => f.has_bmi2, SimdImpl::Sse42 => f.has_sse42, SimdImpl::Neon => f.has_neon, SimdImpl::Sse2 | SimdImpl::Scalar => true };
+            let cfg = AdaptiveSelectorConfig { enable_startup_benchmarks: false, enable_monitoring: c.rng.bool(), enable_adaptation: c.rng.bool(), max_cache_entries: *c.rng.pick(&[1024usize, 4096, 1 << 20]) /* a full cache is the gap_evict family */, ..AdaptiveSelectorConfig::default() };
+            let mk_t = |r: &mut Rng| { let mut v: Vec<usize> = (0..4).map(|_| match r.below(4) { 0 => 0, 1 => r.usize_below(70), 2 => 1usize << r.below(24), _ => r.usize_below(5000) }).collect(); v.sort(); SelectionThresholds { sse2_min_size: v[0], bmi2_min_size: v[1], avx2_min_size: v[2], avx512_min_size: v[3], ..SelectionThresholds::default() } };
+            let t = mk_t(&mut c.rng); c.input_str("cfg", &format!("cache={} thresholds sse2>={} bmi2>={} avx2>={} avx512>={}", cfg.max_cache_entries, t.sse2_min_size, t.bmi2_min_size, t.avx2_min_size, t.avx512_min_size));
+            let mut sel = np("AdaptiveSimdSelector::with_config", || AdaptiveSimdSelector::with_config(cfg.clone()))?;
+            ensure!(sel.hardware_tier() == AdaptiveSimdSelector::new().hardware_tier() && std::ptr::eq(sel.cpu_features() as *const _ as *const u8, f as *const _ as *const u8) || sel.cpu_features().has_avx2 == f.has_avx2, "tier_unsupported", "with_config: hardware tier / features differ from the defaults");
+            let mut asked = vec![];
+            for _ in 0..12 { let op = *c.rng.pick(OPS); let size = match c.rng.below(3) { 0 => c.rng.usize_below(130), 1 => 1usize << c.rng.below(24), _ => c.rng.usize_below(6000) }; let dens = match c.rng.below(3) { 0 => None, 1 => Some(c.rng.f64()), _ => Some(*c.rng.pick(&[0.0, 0.05, 0.5, 0.95, 1.0])) };
+                let a = np("select_optimal_impl", || sel.select_optimal_impl(op, size, dens))?; ensure!(supported(a), "selector_unsupported_impl", "with_config selector: select_optimal_impl({op:?},{size},{dens:?}) = {a:?} not in the feature set"); ensure!(sel.select_optimal_impl(op, size, dens) == a, "selector_unstable", "select_optimal_impl({op:?},{size},{dens:?}) changed on repetition"); asked.push((op, size, dens)); c.ev(2); }
+            np("set_thresholds", || sel.set_thresholds(t.clone()))?;
+            let g = sel.thresholds(); ensure!(g.avx512_min_size == t.avx512_min_size && g.avx2_min_size == t.avx2_min_size && g.bmi2_min_size == t.bmi2_min_size && g.sse2_min_size == t.sse2_min_size, "config_ignored", "thresholds() after set_thresholds");
+            // every earlier question again: the answer must be the one a fresh selector with these thresholds gives (no stale cache entry)
+            // (decisions are cached per (operation, size bucket, density bucket) by design: only the first question of each bucket is repeated)
+            let mut seen = std::collections::HashSet::new(); asked.retain(|&(op, size, dens)| seen.insert(zipora::simd::SelectionKey::new(op, size, dens)));
+            for (op, size, dens) in asked { let mut fresh = AdaptiveSimdSelector::with_config(cfg.clone()); fresh.set_thresholds(t.clone()); let (a, w) = (sel.select_optimal_impl(op, size, dens), fresh.select_optimal_impl(op, size, dens));
+                ensure!(a == w, "selector_stale_cache", "after set_thresholds select_optimal_impl({op:?},{size},{dens:?}) = {a:?}, a fresh selector with the same thresholds says {w:?}"); ensure!(supported(a), "selector_unsupported_impl", "{a:?} not in the feature set");
+                // documented meaning of the thresholds ("minimum size for X") on an uncached, density-free question
+                if dens.is_none() { let min = match w { SimdImpl::Avx512 => t.avx512_min_size, SimdImpl::Avx2 => t.avx2_min_size, SimdImpl::Bmi2 => t.bmi2_min_size, SimdImpl::Sse2 => t.sse2_min_size, _ => 0 }; ensure!(size >= min, "selector_below_min_size", "fresh selector: select_optimal_impl({op:?},{size},None) = {w:?} although its minimum size is {min}"); }
+                c.ev(2); }
+            Ok(()) });
+        // ---- feature -> variant tables on synthetic feature sets: never name an instruction set the features lack
+        ctx.case("dispatch/strategy", "gap_synth", idx, |c| { c.nontrivial(); let mut f = F::CpuFeatures::new(); let bits = if idx < 4 { [0u64, u64::MAX, 0x5555_5555, 0xAAAA_AAAA][idx as usize] } else { c.rng.next() & c.rng.next() | if c.rng.bool() { c.rng.next() } else { 0 } }; let b = |i: u32| bits >> i & 1 == 1;
+            f.has_sse41 = b(0); f.has_sse42 = b(1); f.has_avx = b(2); f.has_avx2 = b(3); f.has_avx512f = b(4); f.has_avx512vl = b(5); f.has_avx512bw = b(6); f.has_avx512vpopcntdq = b(7); f.has_bmi1 = b(8); f.has_bmi2 = b(9); f.has_popcnt = b(10); f.has_lzcnt = b(11); f.has_tzcnt = b(12); f.has_prefetchw = b(13); f.has_neon = b(14); f.has_crc32 = b(15);
+            c.input_str("features", &format!("{:#06x}", bits & 0xFFFF)); np("detect_and_configure_simd", || f.detect_and_configure_simd())?;
+            let rs = f.optimal_rank_select_variant(); ensure!(match rs { "avx512_popcnt" => f.has_avx512f && f.has_avx512bw && f.has_avx512vpopcntdq, "bmi2_avx2" => f.has_bmi2 && f.has_avx2, "avx2" => f.has_avx2, "bmi2" => f.has_bmi2, "popcnt" => f.has_popcnt, "neon" => f.has_neon, "scalar" => true, _ => false }, "variant_unsupported", "optimal_rank_select_variant = {rs:?} for features {:#06x}", bits & 0xFFFF);
+            let ss = f.optimal_string_search_variant(); ensure!(match ss { "sse42_pcmpestri" => f.has_sse42, "avx2_search" => f.has_avx2, "neon_search" => f.has_neon, "scalar" => true, _ => false }, "variant_unsupported", "optimal_string_search_variant = {ss:?} for features {:#06x}", bits & 0xFFFF);
+            let mc = f.optimal_memcpy_variant(); ensure!(match mc { "avx512_memcpy" => f.has_avx512f, "avx2_memcpy" => f.has_avx2, "neon_memcpy" => f.has_neon, "scalar_memcpy" => true, _ => false }, "variant_unsupported", "optimal_memcpy_variant = {mc:?} for features {:#06x}", bits & 0xFFFF);
+            let b6 = f.optimal_base64_variant(); ensure!(match b6 { "avx2" => f.has_avx2, "sse42" => f.has_sse42, "neon" => f.has_neon, "scalar" => true, _ => false }, "variant_unsupported", "optimal_base64_variant = {b6:?} for features {:#06x}", bits & 0xFFFF);
+            let ra = f.recommended_alignment(); ensure!(ra.is_power_of_two() && (ra < 64 || f.has_avx512f) && (ra < 32 || f.has_avx2 || f.has_avx512f), "variant_unsupported", "recommended_alignment = {ra} for features {:#06x}", bits & 0xFFFF);
+            let ch = f.recommended_chunk_size(); ensure!(ch.is_power_of_two() && ch >= 4096, "variant_unsupported", "recommended_chunk_size = {ch}"); let _ = (f.should_use_prefetch(), f.has_optimal_memory_access());
+            for (ft, w) in [(F::CpuFeature::SSE4_1, f.has_sse41), (F::CpuFeature::SSE4_2, f.has_sse42), (F::CpuFeature::AVX, f.has_avx), (F::CpuFeature::AVX2, f.has_avx2), (F::CpuFeature::BMI1, f.has_bmi1), (F::CpuFeature::BMI2, f.has_bmi2), (F::CpuFeature::POPCNT, f.has_popcnt), (F::CpuFeature::LZCNT, f.has_lzcnt), (F::CpuFeature::TZCNT, f.has_tzcnt), (F::CpuFeature::AVX512F, f.has_avx512f), (F::CpuFeature::AVX512VL, f.has_avx512vl), (F::CpuFeature::AVX512BW, f.has_avx512bw), (F::CpuFeature::AVX512VPOPCNTDQ, f.has_avx512vpopcntdq), (F::CpuFeature::NEON, f.has_neon)] { ensure!(f.has_feature(ft) == w, "feature_query", "CpuFeatures::has_feature({ft:?}) = {} but the field is {w}", f.has_feature(ft)); c.ev(1); }
+            // legacy map-based set
+            let mut map = std::collections::HashMap::new(); for (i, ft) in [F::CpuFeature::SSE2, F::CpuFeature::SSE4_2, F::CpuFeature::AVX2, F::CpuFeature::BMI2, F::CpuFeature::POPCNT, F::CpuFeature::AVX512F, F::CpuFeature::AVX512BW, F::CpuFeature::NEON, F::CpuFeature::UnalignedAccess].into_iter().enumerate() { match (bits >> (20 + 2 * i)) & 3 { 0 => {} 1 => { map.insert(ft, false); } _ => { map.insert(ft, true); } } }
+            let set = F::CpuFeatureSet { features: map.clone(), vendor: String::new(), model: String::new(), logical_cores: 1, physical_cores: 1, cache_line_size: if b(40) { 64 } else { 32 }, l1_cache_size: 32768, l2_cache_size: 262144, l3_cache_size: 8 << 20, simd_tier: 0 };
+            let has = |ft: F::CpuFeature| map.get(&ft).copied().unwrap_or(false);
+            for ft in [F::CpuFeature::SSE2, F::CpuFeature::SSE4_2, F::CpuFeature::AVX2, F::CpuFeature::BMI2, F::CpuFeature::POPCNT, F::CpuFeature::AVX512F, F::CpuFeature::AVX512BW, F::CpuFeature::NEON, F::CpuFeature::AES] { ensure!(set.has_feature(ft) == has(ft), "feature_query", "CpuFeatureSet::has_feature({ft:?})"); }
+            let rs = set.optimal_rank_select_variant(); ensure!(match rs { "avx512" => has(F::CpuFeature::AVX512F) && has(F::CpuFeature::AVX512BW), "bmi2_avx2" => has(F::CpuFeature::BMI2) && has(F::CpuFeature::AVX2), "avx2" => has(F::CpuFeature::AVX2), "popcnt" => has(F::CpuFeature::POPCNT), "neon" => has(F::CpuFeature::NEON), "scalar" => true, _ => false }, "variant_unsupported", "CpuFeatureSet::optimal_rank_select_variant = {rs:?}");
+            let b6 = set.optimal_base64_variant(); ensure!(match b6 { "avx2" => has(F::CpuFeature::AVX2), "sse42" => has(F::CpuFeature::SSE4_2), "neon" => has(F::CpuFeature::NEON), "scalar" => true, _ => false }, "variant_unsupported", "CpuFeatureSet::optimal_base64_variant = {b6:?}");
+            let st = set.get_simd_tier(); ensure!(match st { 4 => has(F::CpuFeature::AVX512F), 3 => has(F::CpuFeature::BMI2) && has(F::CpuFeature::AVX2), 2 => has(F::CpuFeature::AVX2), 1 => has(F::CpuFeature::POPCNT) || has(F::CpuFeature::NEON), 0 => true, _ => false }, "variant_unsupported", "CpuFeatureSet::get_simd_tier = {st}");
+            let ra = set.recommended_alignment(); ensure!(ra.is_power_of_two() && (ra < 64 || has(F::CpuFeature::AVX512F)) && (ra < 32 || has(F::CpuFeature::AVX2) || has(F::CpuFeature::AVX512F)), "variant_unsupported", "CpuFeatureSet::recommended_alignment = {ra}"); let _ = set.has_optimal_memory_access();
+            c.ev(10); Ok(()) });
+    }
+    // ---- the process-wide feature set seen through every accessor
+    ctx.case("dispatch/strategy", "gap_global", 0, |c| { c.nontrivial(); let f = zipora::system::get_cpu_features(); c.input_str("features", &format!("sse42={} avx2={} bmi2={} popcnt={} avx512f={}", f.has_sse42, f.has_avx2, f.has_bmi2, f.has_popcnt, f.has_avx512f));
+        ensure!(std::ptr::eq(F::detect_and_configure_simd(), f), "feature_query", "detect_and_configure_simd() is not get_cpu_features()");
+        for (ft, w) in [(F::CpuFeature::SSE4_2, f.has_sse42), (F::CpuFeature::AVX2, f.has_avx2), (F::CpuFeature::BMI2, f.has_bmi2), (F::CpuFeature::POPCNT, f.has_popcnt), (F::CpuFeature::AVX512F, f.has_avx512f), (F::CpuFeature::AVX512BW, f.has_avx512bw), (F::CpuFeature::NEON, f.has_neon)] { ensure!(F::has_cpu_feature(ft) == w, "feature_query", "has_cpu_feature({ft:?}) = {} but get_cpu_features() says {w}", F::has_cpu_feature(ft)); c.ev(1); }
+        let s = np("get_optimal_simd_strategy", || F::get_optimal_simd_strategy())?;
+        ensure!(s.rank_select_variant == f.optimal_rank_select_variant() && s.string_search_variant == f.optimal_string_search_variant() && s.memcpy_variant == f.optimal_memcpy_variant() && s.chunk_size == f.recommended_chunk_size() && s.alignment == f.recommended_alignment() && s.use_prefetch == f.should_use_prefetch() && s.optimization_tier == f.optimization_tier, "feature_query", "get_optimal_simd_strategy() differs from the per-field getters");
+        ensure!(match s.memcpy_variant { "avx512_memcpy" => f.has_avx512f, "avx2_memcpy" => f.has_avx2, "neon_memcpy" => f.has_neon, _ => true } && match s.string_search_variant { "sse42_pcmpestri" => f.has_sse42, "avx2_search" => f.has_avx2, "neon_search" => f.has_neon, _ => true }, "variant_unsupported", "strategy {:?}/{:?} not backed by the (possibly forced) feature set", s.memcpy_variant, s.string_search_variant);
+        // the per-object accessors show the same (possibly forced) feature set
+        let u = zipora::io::simd_validation::utf8::Utf8Validator::new_unmonitored(); ensure!(u.cpu_features().has_avx2 == f.has_avx2 && u.cpu_features().has_sse42 == f.has_sse42, "tier_unsupported", "Utf8Validator::cpu_features()");
+        let p = zipora::string::bmi2::Bmi2StringProcessor::new(); ensure!(p.capabilities().has_bmi2 == p.is_bmi2_available(), "tier_unsupported", "Bmi2StringProcessor::capabilities()");
+        let sel = AdaptiveSimdSelector::new(); ensure!(sel.cpu_features().has_avx2 == f.has_avx2 && sel.cpu_features().has_bmi2 == f.has_bmi2, "tier_unsupported", "AdaptiveSimdSelector::cpu_features()"); let t = sel.thresholds(); ensure!(t.sse2_min_size <= t.avx2_min_size && t.avx2_min_size <= t.avx512_min_size, "feature_query", "default thresholds not ordered");
+        c.ev(6); Ok(()) });
+}
+
+
+/// Run `f` on a helper thread. `Err(Some(d))`: no answer within 1.5 s AND the helper thread is asleep with no CPU time and no
+/// context switch over the following 0.5 s (it is blocked for good: the state predicate, not the delay, is the verdict; the thread
+/// is leaked). `Err(None)`: no answer but the thread is still doing something (undecided).
+#[cfg(not(miri))]
+fn run_or_blocked<T: Send + 'static>(f: impl FnOnce() -> T + Send + 'static) -> Result<Result<T, String>, Option<String>> {
+    use std::sync::mpsc; use std::time::Duration;
+    let (tx, rx) = mpsc::channel::<Result<T, String>>(); let (ttx, trx) = mpsc::channel::<u64>();
+    let h = std::thread::Builder::new().name("c14-select".into()).spawn(move || { let _ = ttx.send(unsafe { libc::syscall(libc::SYS_gettid) } as u64);
+        let r = std::panic::catch_unwind(std::panic::AssertUnwindSafe(f)).map_err(|e| e.downcast_ref::<String>().cloned().or_else(|| e.downcast_ref::<&str>().map(|s| s.to_string())).unwrap_or_else(|| "panic".into())); let _ = tx.send(r); });
+    if h.is_err() { return Err(None); }
+    let tid = match trx.recv_timeout(Duration::from_secs(5)) { Ok(t) => t, Err(_) => return Err(None) };
+    match rx.recv_timeout(Duration::from_millis(1500)) { Ok(r) => return Ok(r), Err(mpsc::RecvTimeoutError::Disconnected) => return Err(None), Err(_) => {} }
+    let snap = || -> Option<(char, u64, u64)> { let stat = std::fs::read_to_string(format!("/proc/self/task/{tid}/stat")).ok()?; let rest = &stat[stat.rfind(')')? + 2..]; let f: Vec<&str> = rest.split(' ').collect(); let cpu = f.get(11)?.parse::<u64>().ok()? + f.get(12)?.parse::<u64>().ok()?;
+        let status = std::fs::read_to_string(format!("/proc/self/task/{tid}/status")).ok()?; let mut cs = 0u64; for l in status.lines() { if l.starts_with("voluntary_ctxt_switches") || l.starts_with("nonvoluntary_ctxt_switches") { cs += l.split_whitespace().last()?.parse::<u64>().ok()?; } } Some((f.first()?.chars().next()?, cpu, cs)) };
+    let a = snap(); for _ in 0..2 { std::thread::sleep(Duration::from_millis(250)); if let Ok(r) = rx.try_recv() { return Ok(r); } if snap() != a { return Err(None); } }
+    match a { Some(('S', cpu, cs)) => Err(Some(format!("helper thread asleep, cpu ticks {cpu} and context switches {cs} unchanged over 0.5 s"))), _ => Err(None) }
+}
+
+/// selection cache at capacity: the next distinct (operation, size bucket, density bucket) question has to evict an entry
+#[cfg(not(miri))]
+fn g_gap_evict(ctx: &mut Ctx) {
+    use zipora::simd::adaptive::AdaptiveSelectorConfig;
+    use zipora::simd::{AdaptiveSimdSelector, Operation, SimdImpl};
+    const OPS: &[Operation] = &[Operation::Rank, Operation::Select, Operation::Popcount, Operation::Search, Operation::Hash, Operation::StringSearch, Operation::BitManip, Operation::MemZero, Operation::Copy, Operation::Utf8Validation, Operation::Encode, Operation::Decode];
+    for idx in 0..ctx.n(5, 20) as u64 {
+        ctx.case("adaptive/select", "gap_evict", idx, |c| { c.tag("selection_cache_full"); c.nontrivial();
+            let cap = [0usize, 1, 2, 5, 1024][(idx % 5) as usize]; c.input_str("cfg", &format!("max_cache_entries={cap}"));
+            // distinct cache keys: every (operation, size bucket) and, for the default capacity, enough density buckets to pass 1024
+            let mut qs: Vec<(Operation, usize, Option<f64>)> = vec![]; for &op in OPS { for sz in [10usize, 100, 500, 2000, 100_000] { qs.push((op, sz + c.rng.usize_below(20), None)); } }
+            if cap >= 1024 { for k in 0..20u32 { for &op in OPS { for sz in [10usize, 100, 500, 2000, 100_000] { qs.push((op, sz, Some((k as f64 * 12.0 + 3.0) / 255.0))); } } } }
+            c.rng.shuffle(&mut qs); let nq = qs.len(); c.hash_more(&(nq as u64).to_le_bytes());
+            let f = zipora::system::get_cpu_features();
+            let r = run_or_blocked(move || { let cfg = AdaptiveSelectorConfig { enable_startup_benchmarks: false, max_cache_entries: cap, ..AdaptiveSelectorConfig::default() }; let sel = AdaptiveSimdSelector::with_config(cfg.clone());
+                let mut out = Vec::with_capacity(qs.len()); for &(op, sz, d) in &qs { let a = sel.select_optimal_impl(op, sz, d); let mut fresh = AdaptiveSimdSelector::with_config(AdaptiveSelectorConfig { max_cache_entries: 1 << 20, ..cfg.clone() }); let _ = &mut fresh; out.push((op, sz, d, a, fresh.select_optimal_impl(op, sz, d))); } out });
+            match r {
+                Err(Some(d)) => Err(bad("selector_deadlock_cache_full", format!("select_optimal_impl never returns once the selection cache holds max_cache_entries={cap} entries and a new key arrives ({nq} distinct keys asked): {d}"))),
+                Err(None) => crate::ctx::inconclusive("selection thread neither answered nor provably blocked"),
+                Ok(Err(p)) => Err(bad("selector_panic", format!("select_optimal_impl with max_cache_entries={cap}: panic: {p}"))),
+                Ok(Ok(out)) => { for (op, sz, d, a, w) in out { let ok = match a { SimdImpl::Avx512 => f.has_avx512f && f.has_avx512bw && f.has_avx512vl, SimdImpl::Avx2 => f.has_avx2, SimdImpl::Bmi2 => f.has_bmi2, SimdImpl::Sse42 => f.has_sse42, SimdImpl::Neon => f.has_neon, SimdImpl::Sse2 | SimdImpl::Scalar => true };
+                        ensure!(ok, "selector_unsupported_impl", "full cache: select_optimal_impl({op:?},{sz},{d:?}) = {a:?} not in the feature set"); ensure!(a == w, "selector_stale_cache", "full cache (capacity {cap}): select_optimal_impl({op:?},{sz},{d:?}) = {a:?}, an uncached selector says {w:?}"); c.ev(2); } Ok(()) }
+            } });
+    }
+}
+
+fn g_gap(ctx: &mut Ctx) {
+    if cfg!(miri) { return; }
+    g_gap_memops(ctx);
+    g_gap_strings(ctx);
+    g_gap_unicode(ctx);
+    g_gap_codec_bits(ctx);
+    g_gap_selection(ctx);
+    #[cfg(not(miri))] g_gap_evict(ctx);
+}
+
 pub fn run(ctx: &mut Ctx) {
     g_memops(ctx);
     g_iocopy(ctx);
@@ -1279,4 +1576,5 @@ pub fn run(ctx: &mut Ctx) {
     g_bmi2x(ctx);
     g_adaptive(ctx);
     if !cfg!(miri) { g_huge_bytes(ctx); g_huge_sizes(ctx); g_huge_mib(ctx); }
+    g_gap(ctx);
 }
